@@ -25,6 +25,8 @@ theorem enum_lists (r : Rule) (p : Inst) (hr : WfRule r) :
     (makeEnum p r).H.Pairwise (fun a b => hbv a < hbv b) ∧ (makeEnum p r).M.Pairwise (· < ·) ∧
       (makeEnum p r).S.Pairwise (· < ·) := by
   unfold makeEnum
+  split
+  · exact ⟨List.pairwise_singleton _ _, List.pairwise_singleton _ _, List.pairwise_singleton _ _⟩
   dsimp only
   refine ⟨?_, ?_, ?_⟩
   · split
@@ -124,6 +126,12 @@ theorem times_lt60 (r : Rule) (p : Inst) (hr : WfRule r) (hp : WfInst p) :
   obtain ⟨_, h2, h3⟩ := mem_times _ t ht
   have hpt := hp.time
   unfold makeEnum at h2 h3
+  have hpM : p.M < 60 ∧ p.S < 60 := by
+    rcases hpt with h | h <;> omega
+  by_cases had : p.H = allDay
+  · rw [if_pos had] at h2 h3
+    simp only [List.mem_singleton] at h2 h3; omega
+  rw [if_neg had] at h2 h3
   dsimp only at h2 h3
   constructor
   · split at h2
